@@ -176,7 +176,10 @@ def h_replay_int(ctx, pname):
     A = Namespace(algopy, make_consts(ctx, prog))
     xi = np.array([1, 2, 4])
     xf = np.array([1.5, 2.5, 0.5])
-    for rec_x, rep_x, label in ((xf, xi, 'float recording, integer replay'), (xi, xf, 'integer recording, float replay'), (xi, xi * 2, 'integer recording, integer replay')):
+    xu = algopy.UTPM(np.array([[[1.5, 2.5, 0.5]], [[0.5, -1.0, 2.0]]]))
+    xc = np.array([1.5 + 0.5j, 2.5 - 1j, 0.5 + 2j])
+    for rec_x, rep_x, label in ((xf, xi, 'float recording, integer replay'), (xi, xf, 'integer recording, float replay'), (xi, xi * 2, 'integer recording, integer replay'),
+                                (xu, xi, 'polynomial recording, integer replay'), (xu, xc, 'polynomial recording, complex replay'), (xu, xi.astype(np.int32), 'polynomial recording, int32 replay')):
         try:
             ref_rec = prog.f(A, rec_x.copy())
             ref_rep = prog.f(A, rep_x.copy())
@@ -374,7 +377,7 @@ def units(tier, seed):
     for rec, rep in [('nd', U22), (U11, U22), (U22, 'nd')]:
         out.append(Unit('C05/two-independents/rec=%s,replay=%s' % (rec, rep), 'symx.props.c05', 'h_two_inputs', {'rec': rec, 'replay': rep}, dict(opts)))
         out.append(Unit('C05/zeros-ones-buffers/rec=%s,replay=%s' % (rec, rep), 'symx.props.c05', 'h_ones_zeros', {'rec': rec, 'replay': rep}, dict(opts)))
-    for pn in ['1/x', 'x/x[::-1]', 'x/(1+x*x)', 'x*x', 'x**2', 'x**-1', 'x-const', 'const-x', 'sqrt', 'exp', 'reciprocal', 'x[0]*x[1]', 'buffer', 'sum', 'prod']:
+    for pn in ['1/x', 'x/x[::-1]', 'x/(1+x*x)', 'x*x', 'x**2', 'x**-1', 'x-const', 'const-x', 'sqrt', 'exp', 'reciprocal', 'x[0]*x[1]', 'buffer', 'sum', 'prod', 'augmented assignment on a 0-d accumulator', 'x*x']:
         out.append(Unit('C05/integer-typed arrays/%s' % pn, 'symx.props.c05', 'h_replay_int', {'pname': pn}, dict(opts)))
     for what in ('function', 'gradient', 'pushforward+pullback'):
         out.append(Unit('C05/another graph used while recording (%s)' % what, 'symx.props.c05', 'h_interleaved',
